@@ -609,7 +609,7 @@ func TestC24(t *testing.T) {
 			"StreamTTL 10 min and the auto-derived MetaTTL are never crossed (channel metadata expiry is out of scope); StreamSize is larger than any case so stream == all broadcasts",
 			"only the in-memory map broker is covered",
 		},
-		Cases:  map[string]int{"quick": 2500, "thorough": 25000},
+		Cases:  map[string]int{"quick": 2000, "thorough": 20000},
 		Bubble: true,
 		RequireCounters: []string{"op_between_phases", "op_between_phases_pub", "op_between_phases_ka", "op_between_phases_rm", "refreshed_before_deadline", "expired_once",
 			"removed_between_phases", "republished_between_phases_survived_until_own_deadline", "op_just_before_deadline", "op_just_after_deadline", "op_between_deadline_and_sweep",
